@@ -261,7 +261,7 @@ def run(tier, v):
     def design():
         try:
             cfg = main_cfg if (f0 and f1_pred) else variant_cfg(main_cfg, f0, f1_pred, "Zmodem_pred.cfg")
-            box["r"] = vlib.tlc("Zmodem", cfg, timeout=3000, heap=HEAP, workers=8, coverage=not quick)
+            box["r"] = vlib.tlc("Zmodem", cfg, timeout=3000, heap=HEAP, workers=8)
         except Exception as e:     # re-raised in the main thread
             box["e"] = e
     th = threading.Thread(target=design)
@@ -382,7 +382,10 @@ def run(tier, v):
     cov["liveness_checked"] = "HandBack" + ("" if not f1 else " (under the echo assumption: finding F1)")
     cov["model_constants"] = open(os.path.join(vlib.VERIF, "spec", main_cfg)).read()
     if not quick:
-        ac = vlib.action_counts(box["r"]["out"])
+        # non-vacuity: every action of the spec fires (coverage run on the small configuration)
+        rc = vlib.tlc("Zmodem", variant_cfg("Zmodem_quick.cfg", f0, f1, "Zmodem_cov.cfg"), timeout=3000, heap="2g",
+                      workers=8, coverage=True)
+        ac = vlib.action_counts(rc["out"])
         cov["action_counts"] = ac
         cov["actions_never_fired"] = [a for a, c in ac.items() if c[1] == 0]
         rr = vlib.tlc("Zmodem", "Zmodem_repaired.cfg", timeout=3000, heap="2g", workers=8)
